@@ -101,13 +101,19 @@ func runC08(c *eng.Ctx, tier string) {
 						target = mi.X
 					}
 					reqOK := false
-					if len(fnCall.Call.Args) > 0 {
-						if u, isU := fnCall.Call.Args[0].(*ssa.UnOp); isU && u.X == target {
+					var reqArg ssa.Value
+					for _, fa := range fnCall.Call.Args {
+						if !eng.IsNamed(fa.Type(), "db", "Caller") && reqArg == nil {
+							reqArg = fa
+						}
+					}
+					if reqArg != nil {
+						if u, isU := reqArg.(*ssa.UnOp); isU && u.X == target {
 							reqOK = true
 						}
 						// (decoded by a helper that returns the value it decoded into;
 						// instantiation wrappers in between are looked through)
-						cur := fnCall.Call.Args[0]
+						cur := reqArg
 						for i := 0; i < 3; i++ {
 							inner, hc := eng.ThroughHelper(cur, func(g *ssa.Function) bool { return g.Blocks != nil })
 							if inner == nil || hc == nil || !eng.IsHelper(hc.Parent(), eng.Callee(&hc.Call)) {
